@@ -2,7 +2,8 @@
     (proxy/grpc_handler.go, main.go:167-188).  Statements, [exact], [Print Assumptions] only.
     Histories: [Call md path k | SetTable t | CleanupTick | ConnShutdown u] from any state. *)
 From Coq Require Import String List NArith Bool.
-From Fabio Require Import Lib.Outcome Lib.Bytes Model.GrpcPool Proofs.GrpcPool Model.GrpcTransport Proofs.GrpcTransport.
+From Fabio Require Import Lib.Outcome Lib.Bytes Model.GrpcPool Proofs.GrpcPool Model.GrpcTransport Proofs.GrpcTransport
+  Model.GrpcKeepalive Proofs.GrpcKeepalive.
 From Fabio Require Model.Lookup Proofs.Lookup.
 Import ListNotations.
 Local Open Scope N_scope.
@@ -449,3 +450,89 @@ Theorem C16_transport_loss_nonvacuous :
   count_dials (s_pool (x_st xs3)) ex_u = 1 /\ p_pool (s_pool (x_st xs3)) = [(ex_u, 0)].
 Proof. exact transport_loss_nonvacuous. Qed.
 Print Assumptions C16_transport_loss_nonvacuous.
+
+(* ---- quiet calls (Model/GrpcKeepalive.v): calls during which nobody sends anything for a long
+   while, and pauses between calls, on a pooled backend connection.  Whether such a call survives
+   is decided by two sites that each look fine alone: the keepalive parameters of the connection
+   the proxy dialled (a client with grpc.WithKeepaliveParams pings after Time >= 10 s of silence)
+   and the keepalive enforcement policy of the backend (a stock server closes the connection on
+   the third ping it did not expect). ---- *)
+
+(* THE CODE AS IT IS (newConnection passes no keepalive option): for every backend policy and
+   every history of calls and pauses on one backend, however long the silences: every call is
+   delivered whole -- the backend has the caller's messages and custom metadata, the caller has
+   every message the backend sent, its trailers, status, and its headers (transparent, as for any
+   call) -- on the ONE connection, which the backend never sees end, and no ping reaches it. *)
+Theorem C16_quiet_calls_delivered : forall pol items,
+  Forall2 delivered items (qrun QProxy pol q_init items) /\
+  Forall (fun o => qo_pings o = 0) (qrun QProxy pol q_init items).
+Proof. exact quiet_calls_delivered. Qed.
+Print Assumptions C16_quiet_calls_delivered.
+
+(* the connection itself: without keepalive parameters no event sequence whatsoever makes the
+   client ping or the backend close the connection *)
+Theorem C16_no_keepalive_no_pings : forall pol evs c, k_dead c = false ->
+  k_dead (krun None pol c evs) = false /\ k_pings (krun None pol c evs) = k_pings c.
+Proof. exact no_keepalive_no_pings. Qed.
+Print Assumptions C16_no_keepalive_no_pings.
+
+(* the general principle behind both: for any client parameters and any backend policy, if the
+   connection machine has an invariant under which the connection is open, every call of every
+   history is delivered whole on one connection *)
+Theorem C16_connection_that_stays_up_delivers : forall v pol (K : kconn -> Prop),
+  K k_fresh -> (forall c, K c -> K (k_renew c)) ->
+  (forall c e, K c -> K (kstep (via_keepalive v) pol c e)) -> (forall c, K c -> k_dead c = false) ->
+  forall items, Forall2 (undisturbed_out v) items (qrun v pol q_init items).
+Proof. exact stays_up_delivered. Qed.
+Print Assumptions C16_connection_that_stays_up_delivers.
+
+(* Whatever the client's parameters and the backend's policy: a connection that the backend closed
+   with too_many_pings had been up for 30 s and had sent 3 keepalive pings at least (each needs
+   10 s of silence before it, the third strike closes).  No call that is silent for less is ever
+   affected by keepalive settings -- which is why nothing short of a long silence shows them. *)
+Theorem C16_struck_out_needs_three_pings_thirty_seconds : forall ka pol evs,
+  let c := krun ka pol k_fresh evs in
+  k_dead c = true -> 3 <= k_pings c /\ 30 <= k_now c.
+Proof. exact struck_out_needs_three_pings_thirty_seconds. Qed.
+Print Assumptions C16_struck_out_needs_three_pings_thirty_seconds.
+
+(* Where the boundary lies: a client whose effective interval max(Time, 10 s) is not below the
+   backend's MinTime, and that pings without a call in flight only if the backend permits it, is
+   never struck out and never even earns a strike ... *)
+Theorem C16_respectful_keepalive_never_struck_out : forall k pol,
+  pol_min pol <= eff_time k -> ka_permit k = false \/ pol_permit pol = true ->
+  forall evs, let c := krun (Some k) pol k_fresh evs in k_dead c = false /\ k_strikes c = 0.
+Proof. exact respectful_keepalive_never_struck_out. Qed.
+Print Assumptions C16_respectful_keepalive_never_struck_out.
+
+(* ... and every call of every history on such a connection is delivered whole *)
+Theorem C16_respectful_keepalive_delivered : forall k pol,
+  pol_min pol <= eff_time k -> ka_permit k = false \/ pol_permit pol = true ->
+  forall items, Forall2 (undisturbed_out (QDirect (Some k))) items (qrun (QDirect (Some k)) pol q_init items).
+Proof. exact respectful_keepalive_delivered. Qed.
+Print Assumptions C16_respectful_keepalive_delivered.
+
+(* the code as it is, stock backend: 42 s of silence between two events, a day's pause, a call
+   silent for a day: both events, the trailer and OK arrive each time, 0 pings, 1 connection *)
+Theorem C16_quiet_call_nonvacuous :
+  map qsum (qrun QProxy stock_policy q_init [QCall (ex_watch 42); QGap 86400; QCall (ex_watch 86400)])
+  = [(true, [bs "first"; bs "second"], [(bs "x-events", [bs "2"])], 0, 0, 1, 0);
+     (true, [], [], 0, 0, 1, 0);
+     (true, [bs "first"; bs "second"], [(bs "x-events", [bs "2"])], 0, 0, 1, 0)].
+Proof. exact quiet_call_nonvacuous. Qed.
+Print Assumptions C16_quiet_call_nonvacuous.
+
+(* NOT the code -- the machine is not trivially safe: the same call on a connection dialled with
+   keepalive Time 10 s / Timeout 5 s to a stock backend is struck out after 30 s of silence (the
+   caller has "first" and Unavailable; "second", the trailer and the status are lost; the next
+   call needs a second connection), a call silent for 25 s is not, and a backend with MinTime
+   10 s delivers the 42 s call (C16_respectful_keepalive_delivered) *)
+Theorem C16_keepalive_variant_strikes_out :
+  map qsum (qrun (QDirect (Some ka_10_5)) stock_policy q_init [QCall (ex_watch 42); QCall (ex_watch 25)])
+  = [(false, [bs "first"], [], code_unavailable, 3, 1, 1);
+     (true, [bs "first"; bs "second"], [(bs "x-events", [bs "2"])], 0, 5, 2, 1)]
+  /\ ~ Forall2 delivered [QCall (ex_watch 42)] (qrun (QDirect (Some ka_10_5)) stock_policy q_init [QCall (ex_watch 42)])
+  /\ map qsum (qrun (QDirect (Some ka_10_5)) (mkpol 10 false) q_init [QCall (ex_watch 42)])
+     = [(true, [bs "first"; bs "second"], [(bs "x-events", [bs "2"])], 0, 4, 1, 0)].
+Proof. exact keepalive_variant_strikes_out. Qed.
+Print Assumptions C16_keepalive_variant_strikes_out.
